@@ -7,17 +7,25 @@ The extractor (harness/cmd/extract) regenerates, on every run and from the tree 
 function: its branching constructs in source order, each guard with its condition and with how its branch ends (`return <err>`,
 `continue`, `panic`, …). The hand-written model mirrors exactly these decisions (its `…Pre` / `…Guards` functions are the
 guards of the handlers, in their order). This theorem says that for the files the property is anchored in
-(x/sao/keeper/msg_server_cancel.go, x/sao/keeper/timeout_management.go, x/model/keeper/data_management.go, x/order/keeper/order_management.go) the regenerated skeletons equal the ones the model was written against. A change of a guard, of its
+(x/sao/keeper/msg_server_cancel.go, x/sao/keeper/timeout_management.go, x/model/keeper/data_management.go, x/order/keeper/order_management.go; and, because the anchored code calls into them, x_market_keeper_pool_management_go, x_node_keeper_shard_pledge_management_go) the regenerated skeletons equal the ones the model was written against. A change of a guard, of its
 order, or a new or removed branch breaks it: the correspondence then has to be re-established (the check searches the
 histories for a failing input and reports the violation either way).
 -/
 namespace SaoVerif
 
 theorem C05_decision_skeleton_as_modelled :
-    Generated.Skel.x_sao_keeper_msg_server_cancel_go = Expected.Skel.x_sao_keeper_msg_server_cancel_go ∧
-    Generated.Skel.x_sao_keeper_timeout_management_go = Expected.Skel.x_sao_keeper_timeout_management_go ∧
-    Generated.Skel.x_model_keeper_data_management_go = Expected.Skel.x_model_keeper_data_management_go ∧
-    Generated.Skel.x_order_keeper_order_management_go = Expected.Skel.x_order_keeper_order_management_go := by
+    [Generated.Skel.x_sao_keeper_msg_server_cancel_go,
+     Generated.Skel.x_sao_keeper_timeout_management_go,
+     Generated.Skel.x_model_keeper_data_management_go,
+     Generated.Skel.x_order_keeper_order_management_go,
+     Generated.Skel.x_market_keeper_pool_management_go,
+     Generated.Skel.x_node_keeper_shard_pledge_management_go] =
+    [Expected.Skel.x_sao_keeper_msg_server_cancel_go,
+     Expected.Skel.x_sao_keeper_timeout_management_go,
+     Expected.Skel.x_model_keeper_data_management_go,
+     Expected.Skel.x_order_keeper_order_management_go,
+     Expected.Skel.x_market_keeper_pool_management_go,
+     Expected.Skel.x_node_keeper_shard_pledge_management_go] := by
   decide +kernel
 
 end SaoVerif
